@@ -265,6 +265,20 @@ QUEUE_SETUPS = {
     'single': [[], [['bugfix/TEST-1', 'development/4.3']]],
 }
 
+# three pull requests opened first (ids 1, 2, 3) and queued in the given order of indices: the queue order differs
+# from the id order; in the hotfix layout the hotfix pull request has the highest id (queued_prs lists it first)
+THREE = {
+    'plain': ([['bugfix/TEST-1', 'development/4.3'], ['feature/TEST-2', 'development/5.1'],
+               ['improvement/TEST-3', 'development/4.3']],
+              [[0, 1, 2], [0, 2, 1], [1, 0, 2], [1, 2, 0], [2, 0, 1], [2, 1, 0]]),
+    'hotfix': ([['bugfix/TEST-1', 'development/4.3'], ['feature/TEST-2', 'development/5.1'],
+                ['bugfix/TEST-3', 'hotfix/4.3.17']],
+               [[0, 1, 2], [2, 0, 1], [1, 0, 2], [1, 2, 0]]),
+    'stab': ([['bugfix/TEST-1', 'development/10.0'], ['bugfix/TEST-2', 'stabilization/4.3.18'],
+              ['feature/TEST-3', 'development/5.1']],
+             [[2, 0, 1], [1, 2, 0], [2, 1, 0]]),
+}
+
 # admin jobs run before the request (archived = created-then-deleted, non-canonical spellings, merged queues)
 PRE_STEPS = {
     'none': [],
@@ -277,6 +291,10 @@ PRE_STEPS = {
     'long_minor': [{'s': 'job', 'kind': 'create_branch', 'args': {'branch': 'development/4.30'}},
                    {'s': 'job', 'kind': 'create_branch', 'args': {'branch': 'stabilization/4.30.0'}}],
     'merged_queue': [{'s': 'merge_queue'}],
+    # the archive tag is already there: on the tip of the branch (an interrupted delete-branch: resumed) or elsewhere
+    'tagged_tip': [{'s': 'tag', 'tag': '5.1', 'ref': 'development/5.1'}],
+    'tagged_elsewhere': [{'s': 'tag', 'tag': '5.1', 'ref': 'development/4.3'}],
+    'hotfix_tagged_tip': [{'s': 'tag', 'tag': '4.3.17.archived_hotfix_branch', 'ref': 'hotfix/4.3.17'}],
 }
 
 
@@ -292,8 +310,12 @@ def worlds(ctx):
                     pres += ['archived_dev', 'archived_stab', 'leading_zero_stab', 'long_minor']
                     if uq and queued:
                         pres += ['merged_queue']
+                    if not queued:
+                        pres += ['tagged_tip', 'tagged_elsewhere']
                 if lay == 'hotfix':
                     pres += ['archived_hotfix']
+                    if not queued:
+                        pres += ['hotfix_tagged_tip']
                 for pre in pres:
                     if pre == 'archived_hotfix' and any(d == 'hotfix/4.3.17' for _, d in queued):
                         continue
@@ -307,6 +329,13 @@ def worlds(ctx):
                     res.append({'id': '%s|%s|q%d|%s' % (lay, 'queue' if uq else 'noqueue', qi, pre),
                                 'cfg': {'layout': LAYOUTS[lay], 'use_queue': uq, 'skip_queue': False},
                                 'setup': steps, 'layout': lay, 'pre': pre, 'nq': len(queued)})
+    for lay, (prs, perms) in THREE.items():
+        for perm in perms:
+            steps = [{'s': 'feature', 'branch': 'feature/outside', 'from': LAYOUT_FIRST_DEV[lay]}] + \
+                [{'s': 'open_pr', 'src': a, 'dst': b} for a, b in prs] + [{'s': 'queue_open', 'i': i} for i in perm]
+            res.append({'id': '%s|queue|three%s|none' % (lay, ''.join(str(i + 1) for i in perm)),
+                        'cfg': {'layout': LAYOUTS[lay], 'use_queue': True, 'skip_queue': False},
+                        'setup': steps, 'layout': lay, 'pre': 'none', 'nq': 3, 'perm': perm})
     return res
 
 
@@ -420,10 +449,39 @@ def _queue_pr(world, src, dst):
     return pr
 
 
+def _drive_to_queue(world, pr, src):
+    world.run_job({'e': 'job_pr', 'pr': pr})
+    refs = world.refs()
+    for n in refs:
+        if n == src or (n.startswith('w/') and n.endswith('/' + src)):
+            world.apply({'e': 'build', 'ref': n, 'state': 'SUCCESSFUL'})
+    st = world.run_job({'e': 'job_pr', 'pr': pr})['status']
+    if st != 'Queued':
+        raise RuntimeError('could not queue pull request %d (%s): %s' % (pr, src, st))
+    world._c20_qorder.append(pr)
+
+
+def queue_order_of(world, refs):
+    """The pull requests still queued, in the order in which the scenario queued them (the ground truth)."""
+    return [p for p in getattr(world, '_c20_qorder', []) if any(n.startswith('q/w/%d/' % p) for n in refs)]
+
+
 def run_setup(world, steps):
+    if not hasattr(world, '_c20_qorder'):
+        world._c20_qorder, world._c20_open = [], []
     for s in steps:
         if s['s'] == 'queue_pr':
-            _queue_pr(world, s['src'], s['dst'])
+            world._c20_qorder.append(_queue_pr(world, s['src'], s['dst']))
+        elif s['s'] == 'open_pr':
+            # the pull request gets its id now; it is queued later, possibly after pull requests with higher ids
+            world._c20_open.append((world.apply({'e': 'create_pr', 'src': s['src'], 'dst': s['dst']})['pr'], s['src']))
+        elif s['s'] == 'queue_open':
+            pr, src = world._c20_open[s['i']]
+            _drive_to_queue(world, pr, src)
+        elif s['s'] == 'tag':
+            world.ugit('fetch', '-q', 'origin')
+            world.ugit('tag', s['tag'], 'origin/' + s['ref'])
+            world.ugit('push', '-q', 'origin', s['tag'])
         elif s['s'] == 'job':
             world.run_job({'e': 'job_api', 'kind': s['kind'], 'args': s['args']})
             world.drain()
@@ -700,16 +758,21 @@ def _worker(task):
         run_setup(world, wspec['setup'])
         sites = raise_sites()
         refs, tags = world.refs(), world.tags()
-        queue_order = [p['id'] for p in world.prs() if p['author'] != 'bert-e' and
-                       any(n.startswith('q/w/%d/' % p['id']) for n in refs)]
-        # queue order = the order in which the harness queued them (ids are allocated in that order; integration
-        # pull requests of the robot take ids in between, hence the filter on the author)
+        queue_order = queue_order_of(world, refs)
         reqs = requests_for(refs, tags, wspec['cfg']['use_queue'])
         out['n_requests'] = len(reqs)
         chosen = reqs if reqs_idx is None else [reqs[i % len(reqs)] for i in reqs_idx]
         if reqs_idx is not None and wspec['cfg']['use_queue'] and any(n.startswith('q/') for n in refs):
             # q/* branches on the remote: always try to delete every existing destination branch (with and without
             # a queue of its own) - the job checks q/* branches out before it tags the branch to delete
+            forced = [r for r in reqs if r['kind'] == 'delete_branch' and r.get('shape') == 'existing']
+            if len(queue_order) >= 2:
+                # several queued pull requests: always rebuild the queues, directly and through the creation of the
+                # newest development branch (re-submission order)
+                forced += [r for r in reqs if r['kind'] == 'rebuild_queues' or
+                           (r['kind'] == 'create_branch' and r.get('shape') == 'newer' and r['bf']['t'] == 'none')]
+            chosen = chosen + [r for r in forced if r not in chosen]
+        if reqs_idx is not None and str(wspec.get('pre', '')).endswith(('tagged_tip', 'tagged_elsewhere')):
             forced = [r for r in reqs if r['kind'] == 'delete_branch' and r.get('shape') == 'existing']
             chosen = chosen + [r for r in forced if r not in chosen]
         snap = world.snapshot()
@@ -727,6 +790,9 @@ def _worker(task):
                 r = cand[0]
                 evaluate(world, model, wspec, r, sites, queue_order, out,
                          fault={'op': f['op'], 'ref': r['branch'] if f['ref'] == 'branch' else f['ref']})
+                if f['kind'] == 'delete_branch':
+                    # the same request again, nothing refused: the archive tag is on the tip, the job resumes
+                    evaluate(world, model, wspec, dict(r, shape='retry-after-refusal'), sites, queue_order, out)
         world.drop_snapshot(snap)
     except Exception:
         out['error'] = traceback.format_exc()[-2500:]
@@ -754,8 +820,7 @@ def _replay_worker(task):
         install_site_probe(world)
         run_setup(world, scen['setup'])
         refs = world.refs()
-        queue_order = [p['id'] for p in world.prs() if p['author'] != 'bert-e' and
-                       any(n.startswith('q/w/%d/' % p['id']) for n in refs)]
+        queue_order = queue_order_of(world, refs)
         wspec = {'id': scen.get('world', 'replay'), 'cfg': scen['cfg'], 'setup': scen['setup'],
                  'layout': scen.get('world', 'replay').split('|')[0], 'pre': scen.get('pre')}
         evaluate(world, model, wspec, scen['request'], raise_sites(), queue_order, out, fault=scen.get('fault'))
@@ -855,6 +920,16 @@ def run(ctx):
         # one world of every layout x queue mode first, then random ones
         must = [w for w in ws if w['pre'] == 'none' and w['nq'] == (2 if w['cfg']['use_queue'] and
                 w['layout'] in ('plain', 'hotfix', 'stab', 'mixed') else 0)]
+        three = [w for w in ws if w.get('perm') and w['perm'] != sorted(w['perm'])]
+        rng.shuffle(three)
+        picked = []
+        for lay in ('plain', 'hotfix', 'stab'):
+            picked += [w for w in three if w['layout'] == lay][:1]
+        # the hotfix pull request with the highest id, queued last: queued_prs lists it first
+        picked += [w for w in ws if w.get('perm') == [0, 1, 2] and w['layout'] == 'hotfix']
+        picked += [w for w in ws if w['pre'] in ('tagged_tip', 'tagged_elsewhere') and w['cfg']['use_queue']]
+        must = must + picked
+        n_worlds = max(n_worlds, len(must) + 4)
         rest = [w for w in ws if w not in must]
         rng.shuffle(rest)
         chosen = (must + rest)[:n_worlds]
@@ -868,7 +943,8 @@ def run(ctx):
     ctx.rule = ('corpus first; then %d worlds out of the family layout {plain, stabilization, hotfix line, major-only, '
                 'mixed, single} x queues on/off x 0-2 queued pull requests (hotfix queues included) x preliminary '
                 'admin jobs {none, archived development / stabilization / hotfix branch, leading-zero stabilization, '
-                'two-digit minor, merged queue}; in each world %d requests drawn from: create/delete x {older, '
+                'two-digit minor, merged queue, archive tag already on the tip / elsewhere} + worlds with three pull requests '
+                'opened first and queued in every order (hotfix pull request with the highest id included); in each world %d requests drawn from: create/delete x {older, '
                 'between, newer, existing, archived, stabilization next/skipped/wrong/released/orphan patch, hotfix with/without '
                 'start tag} x branch_from {absent, first/last development branch, tip/parent of the last one, tip '
                 'of a middle one, feature branch tip, unknown sha, missing branch}, rebuild/delete/force-merge '
